@@ -301,13 +301,16 @@ def _session_reads(ctx, res):
         for first in ([0x62] + ([0x6A] if ver == '31' else [])):
             again = 0x6A if ver == '31' else 0x62
             pre = _prefix(3, ver, 'connected')
-            lines = pre + ['recv 0 ' + hx(publish_pkt('q/\u00f1', b'z', 2, mid=0x1234)), 'recv 0 ' + hx(ack(first, 0x1234)), 'recv 0 ' + hx(ack(again, 0x1234))]
+            # (another PUBLISH arrives between the QoS 2 PUBLISH and its PUBREL: what is released must still be the message that carried the identifier)
+            lines = pre + ['recv 0 ' + hx(publish_pkt('q/\u00f1', b'z', 2, mid=0x1234)), 'recv 0 ' + hx(publish_pkt('other', b'yy', 1, mid=0x0777, retain=True)),
+                           'recv 0 ' + hx(ack(first, 0x1234)), 'recv 0 ' + hx(ack(again, 0x1234))]
             trace = realworld.run_scenario(lines)
             obs = [o for step in trace[len(pre):] for o in step[1]]
             got = [o for o in obs if o.startswith('pub ')]
             acks = [o.split()[2] for o in obs if o.startswith('w ')]
-            n += 3
-            if len(got) != 1 or acks != ['50021234', '70021234', '70021234'] or any(o.startswith('abort') for o in obs):
+            n += 4
+            want2 = ['pub 0 %s %s 1 0 1 1911' % (hx(b'other'), hx(b'yy')), 'pub 0 %s %s 2 0 0 4660' % (hx('q/\u00f1'.encode('utf-8')), hx(b'z'))]
+            if got != want2 or acks != ['50021234', '40020777', '70021234', '70021234'] or any(o.startswith('abort') for o in obs):
                 res.violations.append(dict(what='C02: a PUBREL in the format prescribed for version %s (first byte %#x, then %#x) does not complete the exchange '
                                            '(deliveries %s, written %s, aborted %s)' % (ver, first, again, got, acks, any(o.startswith('abort') for o in obs)),
                                            signature='C02 session read', scenario=lines))
